@@ -29,9 +29,14 @@ type ccFn struct {
 }
 
 // ccScenario is one call of CallConcurrently; cancel: the environment may cancel the caller's context.
+//
+// xk is set by the X-level trace validation only (fam_ccall.x_conformance): the 1-based index of this
+// scenario in the Scens constant of the X spec; it is logged (event "scen") so that CCallXTrace.tla
+// knows which Choose(k) the run corresponds to.
 type ccScenario struct {
 	Fns    []ccFn `json:"fns"`
 	Cancel bool   `json:"cancel"`
+	XK     int    `json:"xk,omitempty"`
 }
 
 var (
@@ -188,6 +193,9 @@ func (d *ccDriver) Run(x *sched.Exec, raw json.RawMessage) json.RawMessage {
 		d.sc.Fns = []ccFn{}
 	}
 	used, _ := json.Marshal(d.sc)
+	if x.LogSteps {
+		x.Log(trace.E{"ev": "scen", "k": d.sc.XK})
+	}
 	d.actorFn = map[string]int{}
 	d.abort = make(chan struct{})
 	d.c = x.NewClient("c1")
@@ -308,9 +316,14 @@ func (d *ccDriver) Run(x *sched.Exec, raw json.RawMessage) json.RawMessage {
 		x.Log(trace.E{"ev": "quiet", "blocked": b})
 		d.lastQ = fmt.Sprint(b, x.T.Seq())
 	}
-	x.Loop(moves, observe, 60)
+	const maxSteps = 60
+	x.Loop(moves, observe, maxSteps)
 
 	// teardown: everything runs freely from here on
+	if x.LogSteps {
+		// exhausted: the loop ended because no move was left (not because of the step bound)
+		x.Log(trace.E{"ev": "teardown", "exhausted": x.Steps < maxSteps})
+	}
 	x.Drain()
 	for i := 0; i < 20; i++ {
 		ps := x.UserParks()
